@@ -559,7 +559,17 @@ fn run(c: &Case, oracle: &mut Vec<String>) -> String {
             let pwr = arg_bytes(c.args[6]).map(|b| String::from_utf8(b).unwrap_or_default());
             let w = {
                 let (k, p) = (kind.clone(), pww.clone());
-                guard(move || write_with(&k, &cfg, &p, &[("f0".to_string(), PT.to_vec())], None))
+                // a process that writes with several passwords: immediately before the entry under test the same
+                // thread writes (and discards) one with the OTHER password of the pair and the same parameters.
+                // Writer contexts are independent of one another, so this changes nothing — unless a key, salt or
+                // PHSF string survives from one context into the next.
+                let decoy = pwr.clone().filter(|d| *d != pww);
+                guard(move || {
+                    if let Some(d) = decoy {
+                        let _ = write_with(&k, &cfg, &d, &[("decoy".to_string(), b"decoy content".to_vec())], None);
+                    }
+                    write_with(&k, &cfg, &p, &[("f0".to_string(), PT.to_vec())], None)
+                })
             };
             let a = match w {
                 Err(()) => {
